@@ -91,6 +91,17 @@ PLANS["C20"] = {
     ],
 }
 
+# sanitizer stages (thorough tier): TSan on the parallel workloads, a few cases under Miri
+PLANS["C10"]["thorough"] = PLANS["C10"]["thorough"] + [
+    {"name": "vm-tsan", "kind": "vh_tsan", "engine": "vm", "scale": 0.02, "shards": 4, "timeout": 3000},
+    {"name": "vm-miri", "kind": "vh_miri", "engine": "vm", "scale": 0.0015, "shards": 8, "timeout": 3300}]
+PLANS["C02"]["thorough"] = PLANS["C02"]["thorough"] + [
+    {"name": "scen-tsan", "kind": "vh_tsan", "engine": "scen", "scale": 0.02, "shards": 2, "timeout": 3000},
+    {"name": "scen-miri", "kind": "vh_miri", "engine": "scen", "scale": 0.003, "shards": 8, "timeout": 3300}]
+
+PLANS["C12"]["thorough"] = PLANS["C12"]["thorough"] + [{"name": "vm-memcheck", "kind": "vh_valgrind", "engine": "vm", "scale": 0.3, "shards": 8, "timeout": 3000}]
+PLANS["C19"]["thorough"] = PLANS["C19"]["thorough"] + [{"name": "sign-memcheck", "kind": "vh_valgrind", "engine": "sign", "scale": 0.1, "shards": 8, "timeout": 3000}]
+
 # D11 witness runs in its own subprocess (C05 only)
 for tier in ("quick", "thorough"):
     PLANS["C05"][tier] = PLANS["C05"][tier] + [{"name": "d11-witness", "kind": "d11", "profile": "release"}]
